@@ -46,6 +46,12 @@ def run_case(job):
             if kind == "prefixdirs":
                 b.build({"proj/in/a.cmake": fsbox.cmake_content("a.cmake"), "proj/in/api_helpers/h.cmake": fsbox.cmake_content("h.cmake"),
                          "proj/in/apix/x.cmake": fsbox.cmake_content("x.cmake"), "proj/in/zeta/z.cmake": fsbox.cmake_content("z.cmake")})
+            elif kind == "warn":
+                # inputs that make CMinx log warnings/errors but are documented all the same (a doccomment in front of a
+                # commented-out function, a declaration with too few arguments)
+                b.build({"proj/in/a.cmake": "#[[[\n# Doc of something that is commented out.\n#]]\n# function(gone)\n# endfunction()\n\n"
+                                            + fsbox.cmake_content("a.cmake") + "\ncpp_attr(only_one)\nct_add_test(EXPECTFAIL)\nfunction(${x})\nendfunction()\n",
+                         "proj/in/sub/b.cmake": fsbox.cmake_content("b.cmake") + "\n#[[[\n# Dangling at the end.\n#]]\n"})
             elif kind == "tree":
                 tree = Tree(parents, contents)
                 b.build(tree.spec("proj/in"))
@@ -54,12 +60,12 @@ def run_case(job):
             b.build({"proj/readme.txt": "outside the input\n", "../home/dot.txt": "home\n"})
             with open(b.path("work", "s.yaml"), "w") as f:
                 f.write(SETTINGS[sname] or "{}\n")
-        inp = "proj/in" if kind in ("tree", "prefixdirs") else "proj/in/lone.cmake"
+        inp = "proj/in" if kind in ("tree", "prefixdirs", "warn") else "proj/in/lone.cmake"
         if outmode.endswith("+symlink"):
             # the input is reached through a symbolic link to its directory
             for b in (box, box2):
                 os.symlink(os.path.join("proj", "in"), b.path("work", "lnk"))
-            inp = "lnk" if kind in ("tree", "prefixdirs") else "lnk/lone.cmake"
+            inp = "lnk" if kind in ("tree", "prefixdirs", "warn") else "lnk/lone.cmake"
             outmode = outmode[:-len("+symlink")]
         out = {"abs": box.path("outside", "o"), "rel": "o/p", "nested": "proj/in/_docs", "parent": "proj",
                "prepop": "o", "nested-prefix": "proj/in/api"}[outmode]
@@ -112,6 +118,9 @@ def run_case(job):
         # stdout = pages in some directory order, files of one directory sorted, one constant newline-only separator
         rest = r2["stdout"].replace(box2.root, box.root)
         todo = dict(pages)
+        if kind == "warn":       # diagnostics are printed, too: only the file-system clauses are judged for these inputs
+            todo, rest, pages = {}, "", {}
+            r2 = dict(r2, stdout="")
         order, seps = [], []
         first = True
         while todo:
@@ -177,6 +186,9 @@ def run(ctx):
                     jobs.append(("tree", parents, a, recursive, outmode, sname))
     for outmode, sname in itertools.product(OUTMODES, SETTINGS):
         jobs.append(("file", None, None, False, outmode, sname))
+    for outmode in ("abs", "rel", "nested", "prepop"):
+        for recursive in (True, False):
+            jobs.append(("warn", None, None, recursive, outmode, "default"))
     for outmode in ("nested-prefix", "nested", "abs", "rel"):
         for recursive in (True, False):
             jobs.append(("prefixdirs", None, None, recursive, outmode, "default"))
